@@ -334,9 +334,34 @@ func (w *worker) run(p *pg.Prog, c Case) (res outcome) {
 		w.seed()
 	}
 	w.env.Rec.Reset()
-	tx, vals := p.Run(w.env.DB)
-	res.vals = vals
-	res.err = tx.Error
+	func() {
+		defer func() {
+			if r := recover(); r != nil {
+				res.panicMsg = fmt.Sprint(r)
+			}
+		}()
+		tx, vals := p.Run(w.env.DB)
+		res.vals = vals
+		res.err = tx.Error
+	}()
+	if res.panicMsg != "" {
+		// a panic inside gorm leaves its transaction open: continue on a fresh database
+		defer func() {
+			w.env.Close()
+			w.env = h.Open(&gorm.Config{AllowGlobalUpdate: true})
+			for _, s := range pg.SchemaSQL() {
+				w.env.MustExec(s)
+			}
+			w.seed()
+		}()
+		if res.vals == nil {
+			// the values are deterministic: rebuild them for the oracle
+			base := w.dry[0].Session(&gorm.Session{NewDB: true})
+			for _, s := range p.Slots {
+				res.vals = append(res.vals, pg.Make(s.Class, s.ID, base))
+			}
+		}
+	}
 	first := true
 	for _, ev := range w.env.Rec.Events() {
 		res.events = append(res.events, ev.String())
@@ -361,7 +386,7 @@ func (w *worker) run(p *pg.Prog, c Case) (res outcome) {
 }
 
 type stats struct {
-	evals, withSQL, noSQL, ge2vars, ge2clauses, execEvals, execStmts, errs, sampled int64
+	evals, withSQL, noSQL, ge2vars, ge2clauses, execEvals, execStmts, errs, sampled, classifiedPanics int64
 }
 
 func check(run *mc.Run, w *worker, p *pg.Prog, c Case, st *stats, samples *mc.Samples, outcomes *mc.Set, verbose bool) {
@@ -381,8 +406,14 @@ func check(run *mc.Run, w *worker, p *pg.Prog, c Case, st *stats, samples *mc.Sa
 		run.Violation(tags(p, c), msg, c)
 	}
 	if res.panicMsg != "" {
-		fail([]string{"panic: " + res.panicMsg}, res.text, res.vars)
-		return
+		if c.Exec && p.ReturningIntoNoScanDest() {
+			// classified: gorm cannot scan RETURNING rows into this destination
+			// (real run only); the statement the driver received is still checked
+			atomic.AddInt64(&st.classifiedPanics, 1)
+		} else {
+			fail([]string{"panic: " + res.panicMsg}, res.text, res.vars)
+			return
+		}
 	}
 	if res.text == "" {
 		atomic.AddInt64(&st.noSQL, 1)
@@ -509,18 +540,18 @@ func main() {
 	all, core := pg.OpsFor(false, false), pg.OpsFor(true, false)
 	var plan string
 	// executed slice first (it is the smallest): every program with <=1 call, every finisher
-	for _, s := range pg.Shapes(both, pg.Seqs(pg.OpsFor(false, true), 0, 1), pg.FinsFor(false)) {
+	for _, s := range pg.Shapes(both, pg.Seqs(pg.OpsFor(false, true), 0, 1), pg.FinsFor(false, false)) {
 		items = append(items, item{s, false, true, 1, nil})
 	}
 	if !thorough {
-		addDry(pg.Shapes(both, pg.Seqs(all, 0, 1), pg.FinsFor(false)), 1, nil)
-		addDry(pg.Shapes([]int{pg.ModelT}, pg.Seqs(all, 2, 2), pg.FinsFor(true)), 1, pg.PathClasses)
-		plan = fmt.Sprintf("<=1 call over %d calls x %d finishers x 2 models, 2 calls x %d representative finishers x model T; <=1 slot deviating from its default class (over all classes for <=1 call, over %d path classes for 2 calls)", len(all), len(pg.Fins), len(pg.FinsFor(true)), len(pg.PathClasses))
+		addDry(pg.Shapes(both, pg.Seqs(all, 0, 1), pg.FinsFor(false, false)), 1, nil)
+		addDry(pg.Shapes([]int{pg.ModelT}, pg.Seqs(all, 2, 2), pg.FinsFor(true, false)), 1, pg.PathClasses)
+		plan = fmt.Sprintf("<=1 call over %d calls x %d finishers x 2 models, 2 calls x %d representative finishers x model T; <=1 slot deviating from its default class (over all classes for <=1 call, over %d path classes for 2 calls)", len(all), len(pg.FinsFor(false, false)), len(pg.FinsFor(true, false)), len(pg.PathClasses))
 	} else {
-		addDry(pg.Shapes(both, pg.Seqs(all, 0, 1), pg.FinsFor(false)), 2, nil)
-		addDry(pg.Shapes(both, pg.Seqs(all, 2, 2), pg.FinsFor(false)), 1, nil)
-		addDry(pg.Shapes([]int{pg.ModelT}, pg.Seqs(core, 3, 3), pg.FinsFor(true)), 1, nil)
-		plan = fmt.Sprintf("<=1 call over %d calls x %d finishers x 2 models with <=2 deviating slots (second deviation over %d path classes); 2 calls x all finishers x 2 models with <=1 deviating slot; 3 calls over the reduced alphabet of %d calls x %d representative finishers x model T with <=1 deviating slot", len(all), len(pg.Fins), len(pg.PathClasses), len(core), len(pg.FinsFor(true)))
+		addDry(pg.Shapes(both, pg.Seqs(all, 0, 1), pg.FinsFor(false, false)), 2, nil)
+		addDry(pg.Shapes(both, pg.Seqs(all, 2, 2), pg.FinsFor(false, false)), 1, nil)
+		addDry(pg.Shapes([]int{pg.ModelT}, pg.Seqs(core, 3, 3), pg.FinsFor(true, false)), 1, nil)
+		plan = fmt.Sprintf("<=1 call over %d calls x %d finishers x 2 models with <=2 deviating slots (second deviation over %d path classes); 2 calls x all finishers x 2 models with <=1 deviating slot; 3 calls over the reduced alphabet of %d calls x %d representative finishers x model T with <=1 deviating slot", len(all), len(pg.FinsFor(false, false)), len(pg.PathClasses), len(core), len(pg.FinsFor(true, false)))
 	}
 
 	// merge the groups round-robin: a run cut by the deadline has covered a part of each
@@ -598,6 +629,7 @@ func main() {
 	run.Assume("identifiers given as map keys / clause.Column / column names in templates are quoted into the text by design and are not argument values")
 	run.Assume("Limit/Offset binding is checked under the two DryRun dialectors only (the SQLite dialector's own LIMIT builder inlines integers)")
 	run.Assume("the executed slice checks the text and converted arguments received by the recording driver; whether the rows selected are the intended ones is C02's oracle")
+	run.Assume("executed slice: an explicit RETURNING call in front of a finisher whose destination cannot receive rows ([]map, map update without model) makes gorm's Scan panic in the real run on the unchanged tree; classified by that input-side predicate (the statement the driver received is still checked), not a C01 matter")
 	run.Assume("a []byte argument is accepted as one bound value, or one value per byte where gorm expands a list (IN (?), map conditions): both satisfy 'one placeholder per bound value'")
 	run.Finish(map[string]interface{}{
 		"evaluations":                       st.evals,
@@ -613,12 +645,13 @@ func main() {
 		"programs_with_vars_from_ge2_calls": st.ge2clauses,
 		"executed_on_sqlite":                st.execEvals,
 		"executed_statements_checked":       st.execStmts,
-		"programs_returning_error":          st.errs,
-		"distinct_outcomes":                 outcomes.Len(),
-		"clause_calls":                      len(pg.Ops),
-		"finishers":                         len(pg.Fins),
-		"value_classes":                     int(pg.NumClasses),
-		"stopped_by_deadline":               timedOut != 0,
-		"stopped_after_too_many_violations": tooMany != 0,
+		"exec_panics_classified_returning_into_unscannable_destination": st.classifiedPanics,
+		"programs_returning_error":                                      st.errs,
+		"distinct_outcomes":                                             outcomes.Len(),
+		"clause_calls":                                                  len(pg.Ops),
+		"finishers":                                                     len(pg.FinsFor(false, false)),
+		"value_classes":                                                 int(pg.NumClasses),
+		"stopped_by_deadline":                                           timedOut != 0,
+		"stopped_after_too_many_violations":                             tooMany != 0,
 	})
 }
